@@ -445,6 +445,19 @@ pub mod verif_hooks {
   pub fn is_matched(step_size: i32, offset: i32, index: usize) -> bool {
     super::FunctionalPosition { step_size, offset }.is_matched(index)
   }
+  /// an `NthChild` matcher with an `ofRule`, built from parts (no YAML)
+  pub fn nth_child_of_rule_from_parts<L: super::Language>(
+    step_size: i32,
+    offset: i32,
+    reverse: bool,
+    of_rule: super::Rule<L>,
+  ) -> super::NthChild<L> {
+    super::NthChild {
+      position: super::FunctionalPosition { step_size, offset },
+      of_rule: Some(Box::new(of_rule)),
+      reverse,
+    }
+  }
   /// an `NthChild` matcher without `ofRule`, built from parts (no YAML)
   pub fn nth_child_from_parts<L: super::Language>(
     step_size: i32,
